@@ -775,12 +775,22 @@ def _history(case, out):
     w, h, d = case["w"], case["h"], case["d"]
     g = _ctor_grid(case)
     allowed = [{VAL[v]} for v in case["init"]]
+    every = case.get("observe") == "every"     # observing is an operation of the history too (it may fill caches)
+    done = []
     for call in case["calls"]:
+        if every:
+            where = "%dx%dx%d built with %s%s, all observers queried after every step" % (
+                w, h, d, _call_dict(case["init"]), "".join(", set_boundary_conditions(%r)" % (_call_dict(c),) for c in done))
+            per = _judge("history", g, w, h, d, allowed, bool(case.get("pykin")), out, where)
+            if per is not None:
+                allowed = [{VAL[int(p)]} for p in per]      # the reported setting is now the known previous value
         out.ops += 1
         g.set_boundary_conditions(_call_dict(call))
+        done.append(call)
         allowed = [({VAL[v]} if v >= 0 else (allowed[k] | {"reflecting"})) for k, v in enumerate(call)]
-    where = "%dx%dx%d built with %s, then set_boundary_conditions%s" % (
-        w, h, d, _call_dict(case["init"]), "".join("(%r)" % (_call_dict(c),) for c in case["calls"]))
+    where = "%dx%dx%d built with %s, then set_boundary_conditions%s%s" % (
+        w, h, d, _call_dict(case["init"]), "".join("(%r)" % (_call_dict(c),) for c in case["calls"]),
+        ", all observers queried after every step" if every else "")
     per = _judge("history", g, w, h, d, allowed, bool(case.get("pykin")), out, where)
     if any(v < 0 for c in case["calls"] for v in c):
         out.count("histories_with_partial_dict")
@@ -794,12 +804,15 @@ def _copy(case, out):
     w, h, d = case["w"], case["h"], case["d"]
     g = _ctor_grid(dict(case, ctor="minimal"))
     out.ops += 2
+    a_init = [{VAL[v]} for v in case["init"]]
+    if case.get("observe") == "every":
+        _judge("copy:before-copy", g, w, h, d, a_init, False, out,
+               "%dx%dx%d built with %s" % (w, h, d, {a: "periodical" for a, v in zip("xyz", case["init"]) if v}))
     c = g.copy()
     if type(c) is not RDGridSpace or c is g:
         out.add(P + ":copy:result", "copy() returned %r" % (c,))
         return True
     new = {a: VAL[v] for a, v in zip("xyz", case["new"])}
-    a_init = [{VAL[v]} for v in case["init"]]
     a_new = [{VAL[v]} for v in case["new"]]
     where = "%dx%dx%d built with %s, copy(), then %s.set_boundary_conditions(%r)" % (
         w, h, d, {a: "periodical" for a, v in zip("xyz", case["init"]) if v},
@@ -874,25 +887,29 @@ def _spaces(tier):
     small = [(1, 2, 3), (4, 2, 1)]               # axes of length 1, 2, 3 and 4, 2, 1; <= 8 cells
     big = [(2, 3, 4), (3, 1, 4)]
     shapes = small + (big if tier == "thorough" else [])
-    h1 = [dict(shp(t), sub="history", ctor="full", init=i, calls=[c], pykin=(t[0] * t[1] * t[2] <= 8 and (tier == "thorough" or t == small[0])))
-          for t in shapes for i in FULL8 for c in ALPHA27]
+    MODES = ("end", "every")
+    h1 = [dict(shp(t), sub="history", ctor="full", init=i, calls=[c], observe=m,
+               pykin=(t[0] * t[1] * t[2] <= 8 and (tier == "thorough" or t == small[0])))
+          for t in shapes for i in FULL8 for c in ALPHA27 for m in MODES]
     sp.insert(0, ("history1: %d shapes x 8 initial settings x 1 set_boundary_conditions call out of 27 (each axis absent / "
-                  "reflecting / periodical): every observer follows the reported final setting" % len(shapes), h1, 6))
+                  "reflecting / periodical) x {observers queried at the end only, after every step}: every observer "
+                  "follows the reported setting" % len(shapes), h1, 6))
     if tier == "thorough":
-        h2 = [dict(shp(t), sub="history", ctor="full", init=i, calls=[c1, c2], pykin=(t == small[0]))
-              for t in small for i in FULL8 for c1 in ALPHA27 for c2 in ALPHA27]
-        h2 += [dict(shp(t), sub="history", ctor="full", init=i, calls=[c1, c2], pykin=False)
-               for t in big for i in FULL8 for c1 in FULL8 for c2 in FULL8]
-        name2 = ("history2: 2 shapes x 8 initial settings x 27 x 27 calls + 2 larger shapes x 8 x 8 x 8 full-dict calls")
+        h2 = [dict(shp(t), sub="history", ctor="full", init=i, calls=[c1, c2], observe=m,
+                   pykin=(t == small[0] and min(c1) >= 0 and min(c2) >= 0))
+              for t in small for i in FULL8 for c1 in ALPHA27 for c2 in ALPHA27 for m in MODES]
+        h2 += [dict(shp(t), sub="history", ctor="full", init=i, calls=[c1, c2], observe=m, pykin=False)
+               for t in big for i in FULL8 for c1 in FULL8 for c2 in FULL8 for m in MODES]
+        name2 = "history2: (2 shapes x 8 initial settings x 27 x 27 calls + 2 larger shapes x 8 x 8 x 8 full-dict calls) x 2 observation modes"
     else:
-        h2 = [dict(shp(t), sub="history", ctor="full", init=i, calls=[c1, c2], pykin=False)
-              for t in small for i in FULL8 for c1 in FULL8 for c2 in FULL8]
-        name2 = "history2: 2 shapes x 8 initial settings x 8 x 8 full-dict calls"
-    sp.insert(1, (name2 + ": every observer follows the final setting", h2, 12))
-    cp = [dict(shp(t), sub="copy", init=i, new=j, mode=m) for t in shapes for i in FULL8 for j in FULL8
-          for m in ("change-copy", "change-original")]
-    sp.append(("copy: %d shapes x 8 x 8 settings x {change the copy, change the original}: the other object is "
-               "unaffected, both consistent" % len(shapes), cp, 16))
+        h2 = [dict(shp(t), sub="history", ctor="full", init=i, calls=[c1, c2], observe=m, pykin=False)
+              for t in small for i in FULL8 for c1 in FULL8 for c2 in FULL8 for m in MODES]
+        name2 = "history2: 2 shapes x 8 initial settings x 8 x 8 full-dict calls x 2 observation modes"
+    sp.insert(1, (name2 + ": every observer follows the reported setting", h2, 12))
+    cp = [dict(shp(t), sub="copy", init=i, new=j, mode=m, observe=o) for t in shapes for i in FULL8 for j in FULL8
+          for m in ("change-copy", "change-original") for o in MODES]
+    sp.append(("copy: %d shapes x 8 x 8 settings x {change the copy, change the original} x {original observed before "
+               "copy(), not}: the other object is unaffected, both consistent" % len(shapes), cp, 16))
     return sp
 
 
